@@ -7,6 +7,7 @@ import PV.C16.Spec
   reprq  <ps|pd|fs|fd> <hex text> <printable>   with_preferred_quote / with_forced_quote
   reprb  <hex bytes>                       AsciiEscape::new_repr
   reprbq <ps|pd|fs|fd> <hex bytes>
+  named  <hex bytes> <name length>         AsciiEscape::new(b, AsciiEscape::named_repr_layout(b, name))
 
   `<printable>` lists (decimal, comma separated, `-` for none) the non-ASCII code points of the
   text that the REAL `rustpython_literal::char::is_printable` classifies as printable; it
@@ -33,6 +34,9 @@ def rtBytes (r b : List Nat) : String :=
 def showLayout (l : Layout) (changed : Bool) : String :=
   s!"q={qName l.quote} len={optStr toString l.len} changed={changed}"
 
+/-- `same`, or the hex of the differing text -/
+def sameOrHex (got want : List Nat) : String := if got == want then "same" else showText got
+
 def handleReprs (s pl : List Nat) : String :=
   let p : Nat → Bool := fun c => pl.contains c
   let l := uReprLayout p .single s
@@ -40,7 +44,7 @@ def handleReprs (s pl : List Nat) : String :=
   let tostr := match strReprToString p s with
     | none => "none"
     | some t => if t == r then "same" else "diff"
-  s!"{showLayout l (uChanged s l)} repr={showText r} tostr={tostr} rt={rtStr r s} disp=eq cls=ok"
+  s!"{showLayout l (uChanged s l)} repr={showText r} tostr={tostr} rt={rtStr r s} disp=eq cls=ok fmt={sameOrHex (strReprFmt p s l) r}"
 
 def layoutFor (mode : String) (pref : Quote → Layout) : Option Layout :=
   match mode with
@@ -56,7 +60,7 @@ def handleReprq (mode : String) (s pl : List Nat) : String :=
   | none => "bad-request"
   | some l =>
     let r := uWrite p s l
-    s!"{showLayout l (uChanged s l)} repr={showText r} rt={rtStr r s} cls=ok"
+    s!"{showLayout l (uChanged s l)} repr={showText r} rt={rtStr r s} cls=ok fmt={sameOrHex (strReprFmt p s l) r}"
 
 def handleReprb (b : List Nat) : String :=
   let l := aReprLayout .single b
@@ -67,14 +71,20 @@ def handleReprb (b : List Nat) : String :=
   let disp := match bytesReprToString b with
     | none => "panic"
     | some t => if t == r then "eq" else showText t
-  s!"{showLayout l (aChanged b l)} repr={showText r} tostr={tostr} rt={rtBytes r b} disp={disp}"
+  s!"{showLayout l (aChanged b l)} repr={showText r} tostr={tostr} rt={rtBytes r b} disp={disp} fmt={sameOrHex (bytesReprFmt b l) r} new={sameOrHex (bytesReprNew b (aReprLayout .single b)) r}"
 
 def handleReprbq (mode : String) (b : List Nat) : String :=
   match layoutFor mode (fun q => aReprLayout q b) with
   | none => "bad-request"
   | some l =>
     let r := aWrite b l
-    s!"{showLayout l (aChanged b l)} repr={showText r} rt={rtBytes r b}"
+    s!"{showLayout l (aChanged b l)} repr={showText r} rt={rtBytes r b} fmt={sameOrHex (bytesReprFmt b l) r}"
+
+/-- `named <hex bytes> <name length>` -/
+def handleNamed (b : List Nat) (nameLen : Nat) : String :=
+  let l := aNamedReprLayout nameLen b
+  let r := bytesReprNamed nameLen b
+  s!"{showLayout l (aChanged b l)} repr={showText r} rt={rtBytes r b} fmt={sameOrHex (bytesReprFmt b l) r}"
 
 /-- spec side only (used for validating the reference definitions against CPython):
     `specdecode <hex literal>`, `specrepr <hex text> <python-printable list>`, `specreprb <hex>` -/
@@ -96,6 +106,9 @@ def handle : List String → String
   | ["reprbq", mode, t] => match unhex t with
     | some b => handleReprbq mode b
     | none => "bad-request"
+  | ["named", t, n] => match unhex t, n.toNat? with
+    | some b, some n => if n + 5 ≤ isizeMax then handleNamed b n else "bad-request"
+    | _, _ => "bad-request"
   | ["specdecode", t] => match (unhex t).bind utf8Decode with
     | some l => showVal (Spec.pyLiteralDecode l)
     | none => "bad-request"
